@@ -1021,3 +1021,86 @@ def b_bar_place(tier, rnd):
                 cases.append((copy.deepcopy(b), content, v))
     return {"rule": "every third intermediate state of the 'bars_filled' battery x 10 values x {rest, container}",
             "cases": cases}
+
+
+def _midi_bars(rnd, n):
+    """seeded bars of rests, empty containers, containers (some with a tempo) over mixed values, keys and meters"""
+    from mingus.containers.bar import Bar
+    from mingus.containers.note import Note
+    from mingus.containers.note_container import NoteContainer
+    from contracts.core_keys import KEYS30
+    out = []
+    for i in range(n):
+        b = Bar(rnd.choice(KEYS30), rnd.choice([(4, 4), (3, 4), (6, 8), (5, 4), (2, 2), (0, 0)]))
+        for _ in range(rnd.choice([0, 1, 2, 3, 4, 6])):
+            kind = rnd.choice(["rest", "rest", "empty", "nc", "nc", "nc", "tempo"])
+            v = rnd.choice([1, 2, 4, 8, 16, 32, 3, 6, 12, 1.5, 5, 7, 64, 128])
+            if kind == "rest":
+                c = None
+            else:
+                c = NoteContainer()
+                for _j in range(0 if kind == "empty" else rnd.choice([1, 1, 2, 3])):
+                    x = Note(rnd.choice(["C", "F#", "Bb", "E", "Ab"]), rnd.randint(1, 7))
+                    x.channel, x.velocity = rnd.randint(0, 15), rnd.randint(0, 127)
+                    c.notes.append(x)
+                if kind == "tempo":
+                    c.bpm = rnd.choice([30, 60, 120, 121, 240, 999])
+            b.bar.append([b.current_beat, v, c])
+            b.current_beat += 1.0 / v
+        out.append(b)
+    return out
+
+
+@battery("track_bar")
+def b_track_bar(tier, rnd):
+    cases = []
+    for b in _midi_bars(rnd, 120 if tier == "quick" else 1500):
+        t = _tracks()[rnd.randint(0, 2)]
+        t.delay = rnd.choice([0, 0, 72, 288, 1000])
+        cases.append((t, b))
+    return {"rule": "seeded bars (0..6 entries: rests, empty containers, containers of 1..3 notes, containers with a tempo; "
+                    "binary, dotted and tuplet values; 30 keys x 6 meters) x 3 tracks x 5 pending delays", "cases": cases}
+
+
+@battery("track_track")
+def b_track_track(tier, rnd):
+    from mingus.containers.track import Track
+    cases = []
+    for _ in range(60 if tier == "quick" else 600):
+        tr = Track()
+        tr.bars = _midi_bars(rnd, rnd.choice([0, 1, 2, 3, 5]))
+        t = _tracks()[rnd.randint(0, 2)]
+        t.delay = rnd.choice([0, 0, 72, 288])
+        cases.append((t, tr))
+    return {"rule": "seeded tracks of 0..5 seeded bars (see track_bar), no instrument number, x 3 tracks x 4 pending delays",
+            "cases": cases}
+
+
+@battery("scale_pairs")
+def b_scale_pairs(tier, rnd):
+    import mingus.core.scales as S
+    classes = [S.Ionian, S.Dorian, S.Phrygian, S.Lydian, S.Mixolydian, S.Aeolian, S.Locrian, S.Major, S.HarmonicMajor,
+               S.NaturalMinor, S.HarmonicMinor, S.MelodicMinor, S.Bachian, S.MinorNeapolitan, S.Chromatic, S.WholeTone,
+               S.Octatonic]
+    tonics = {"maj": ["C", "G", "Eb", "F#"], "min": ["a", "e", "c", "f#"]}
+
+    def tonic_for(c, i):
+        if c in (S.Major, S.HarmonicMajor):
+            return tonics["maj"][i]
+        if c in (S.NaturalMinor, S.HarmonicMinor, S.MelodicMinor, S.Bachian, S.MinorNeapolitan):
+            return tonics["min"][i]
+        if c is S.Chromatic:
+            return tonics["maj"][i]
+        return tonics["min"][i].upper()
+    cases = []
+    for i in range(4 if tier == "quick" else 4):
+        for a in classes:
+            for b in classes:
+                for (oa, ob) in ((1, 1), (1, 2), (2, 2)):
+                    try:
+                        cases.append((a(tonic_for(a, i), oa), b(tonic_for(b, i), ob)))
+                    except Exception:
+                        pass
+    return {"rule": "every ordered pair of the 17 scale classes on 4 related tonics x octave counts (1,1) (1,2) (2,2): "
+                    "same class, relatives, and the classes that share one of their two lists (melodic minor / Bachian / "
+                    "natural minor)", "cases": cases}
